@@ -148,3 +148,32 @@ func vLexLE(a, b weight) bool {
 //@   loop 3 decreases len(firstToken.Arguments) - rangeindex
 //@   loop 4 invariant rangeindex < len(group) && fresh(out) && fresh(group_) && forall(k, 0, len(group), group[k] != nil)
 //@   loop 4 decreases len(group) - rangeindex
+
+// ---------------------------------------------------------------------------
+// C04: defaulting (css-cascade-4 §7: initial, inherit, and the root element) and the
+// absolute length units (css-values §6.2).
+
+//@ func (*ComputedStyle).isRootElement
+//@   props C04
+//@   nopanic
+//@   inline
+
+// The value a property takes before computation: the cascaded value if there is one, else
+// `inherit` for inherited properties and custom properties, else `initial`; on the root element
+// `inherit` means `initial`; `initial` is the initial value and `inherit` the parent's computed
+// value. Pending (var()-containing) values are substituted and validated, and an invalid result
+// behaves as `unset`: the parent's value for inherited properties — on an element that has a
+// parent — and the initial value otherwise (css-variables §3.1).
+//@ func (*ComputedStyle).cascadeValue
+//@   props C04 C08
+//@   nopanic
+//@   requires c != nil
+//@   modifies anything
+//@   let has = haskey(c.cascaded, key)
+//@   let v0 = ite(has, c.cascaded[key].value, ite(pr.Inherited.Has(key.KnownProp) || key.Var != "", pr.DeclaredValue(pr.Inherit), pr.DeclaredValue(pr.Initial)))
+//@   let v1 = ite(v0 == pr.Inherit && c.parentStyle == nil, pr.DeclaredValue(pr.Initial), v0)
+//@   ensures[initial] old(v1 == pr.Initial) ==> value == pr.InitialValues[key.KnownProp]
+//@   ensures[inherit] old(v1 == pr.Inherit) ==> value == old(c.parentStyle).Get(key) && save
+//@   ensures[declared] old(v1 != pr.Initial && v1 != pr.Inherit && !typeIs(v1, pr.RawTokens)) ==> value == old(v1) && !save
+//@   unclaimed callee-nopanic@* "resolveVar, the validators and the serializer are decided under C07/C08, not here"
+//@   unclaimed typeassert@* "`_ = value.(pr.CssProperty)` is a deliberate assertion (TODO in the source): declared values other than Inherit/Initial/RawTokens are CssProperty by construction of the validators"
